@@ -411,8 +411,12 @@ func (w *Workspace) isWorkspaceFileLocked(path string) bool {
 	if w.index.FileIndex(path) != nil {
 		return true
 	}
-	if len(w.reverseGraph[path]) > 0 {
-		return true
+	// a file that a member of the tree includes; files that include it without
+	// belonging to the tree themselves do not make it a member
+	for _, includer := range w.reverseGraph[path] {
+		if includer == w.rootJournalPath || w.index.FileIndex(includer) != nil {
+			return true
+		}
 	}
 	return false
 }
